@@ -370,7 +370,12 @@ def check(case, ctx: Ctx):
                         for key in ("amp", "det"):
                             xa = np.asarray(getattr(ma.channel_samples[n], key).as_array())
                             xb = np.asarray(getattr(mb.channel_samples[ren.get(n, n)], key).as_array())
-                            if xa.shape != xb.shape or not np.allclose(xa, xb, rtol=0, atol=1e-9):
+                            # (an off detuning of 6e-17 instead of 0 turns the last buffer from a delay into
+                            #  a "pulse", which the tree lets ring down: same output, longer array of zeros)
+                            n_ = min(len(xa), len(xb))
+                            rest = np.concatenate([xa[n_:], xb[n_:]])
+                            if not np.allclose(xa[:n_], xb[:n_], rtol=0, atol=1e-9) or (
+                                    rest.size and np.max(np.abs(rest - (rest[0] if key == "det" else 0.0))) > 1e-9):
                                 oa, ob = seq._schedule[n].channel_obj, new._schedule[ren.get(n, n)].channel_obj
                                 ctx.fail(C, f"strict:modulated_samples_changed:{key}",
                                          f"{n}: mod_bandwidth {oa.mod_bandwidth} -> {ob.mod_bandwidth}, in EOM mode at some "
